@@ -282,6 +282,82 @@ def tick (c : Conf) (t : Nat) : Conf × Ev :=
     | _ => (c, .idle)
   | _ => (c, .idle)
 
+/-! ## Statement-level model of the fixed code (pre-emption between any two statements) -/
+
+namespace Micro
+
+/-- where a thread is inside `__enter__` / `__exit__` (the statement it executes next) -/
+inductive MPC
+  | idle                                        -- not inside `__enter__`/`__exit__`
+  | eAcq | eInc | eRead | eInstall | eSetP | eRel   -- with cls.lock: / refcount += 1 / .get / table[..] = / patched = True / leave
+  | xAcq | xDec | xTest | xDel | xClrP | xRel       -- with cls.lock: / refcount -= 1 / if .. / del / patched = False / leave
+  deriving DecidableEq, Repr
+
+structure MT where
+  pc : MPC
+  depth : Nat
+  deriving DecidableEq, Repr
+
+structure MSys where
+  orig    : Option Entry
+  table   : Option Entry
+  rc      : Int
+  patched : Bool
+  lock    : Option Nat
+  threads : List MT
+  failed  : Bool
+  deriving DecidableEq, Repr
+
+def minit (foreign : Bool) (n : Nat) : MSys :=
+  let o := if foreign then some Entry.foreign else none
+  ⟨o, o, 0, false, none, List.replicate n ⟨.idle, 0⟩, false⟩
+
+/-- what a thread does when it is scheduled -/
+inductive MAct
+  | enter    -- call `__enter__` (thread is idle)
+  | exit     -- call `__exit__` (thread is idle inside a protected block)
+  | copy     -- `copy.deepcopy(module)` inside a protected block
+  | next     -- execute the next statement of `__enter__`/`__exit__`
+  deriving DecidableEq, Repr
+
+def MSys.setT (s : MSys) (t : Nat) (th : MT) : MSys := { s with threads := s.threads.set t th }
+
+def mstep (s : MSys) (t : Nat) (a : MAct) : Option MSys :=
+  match s.threads[t]? with
+  | none => none
+  | some th =>
+    match th.pc, a with
+    | .idle, .enter => some (s.setT t { th with pc := .eAcq })
+    | .idle, .exit => if 0 < th.depth then some (s.setT t { th with pc := .xAcq }) else none
+    | .idle, .copy =>
+      if 0 < th.depth then (if s.table.isSome then some s else some { s with failed := true }) else none
+    | .eAcq, .next => if s.lock.isNone then some { s.setT t { th with pc := .eInc } with lock := some t } else none
+    | .eInc, .next => some { s.setT t { th with pc := .eRead } with rc := s.rc + 1 }
+    | .eRead, .next => some (s.setT t { th with pc := if s.table.isNone then .eInstall else .eRel })
+    | .eInstall, .next => some { s.setT t { th with pc := .eSetP } with table := some .ours }
+    | .eSetP, .next => some { s.setT t { th with pc := .eRel } with patched := true }
+    | .eRel, .next => some { s.setT t { pc := .idle, depth := th.depth + 1 } with lock := none }
+    | .xAcq, .next => if s.lock.isNone then some { s.setT t { th with pc := .xDec } with lock := some t } else none
+    | .xDec, .next => some { s.setT t { th with pc := .xTest } with rc := s.rc - 1 }
+    | .xTest, .next => some (s.setT t { th with pc := if s.patched && s.rc == 0 then .xDel else .xRel })
+    | .xDel, .next =>
+      some { s.setT t { th with pc := .xClrP } with table := none, failed := s.failed || s.table.isNone }
+    | .xClrP, .next => some { s.setT t { th with pc := .xRel } with patched := false }
+    | .xRel, .next => some { s.setT t { pc := .idle, depth := th.depth - 1 } with lock := none }
+    | _, _ => none
+
+inductive MReachable (foreign : Bool) (n : Nat) : MSys → Prop
+  | init : MReachable foreign n (minit foreign n)
+  | step {s s' : MSys} (t : Nat) (a : MAct) : MReachable foreign n s → mstep s t a = some s' → MReachable foreign n s'
+
+def mrunSched (s : MSys) : List (Nat × MAct) → MSys
+  | [] => s
+  | (t, a) :: r => match mstep s t a with
+    | none => mrunSched s r
+    | some s' => mrunSched s' r
+
+end Micro
+
 /-! ## Legacy counter-models (the code before the `fix:` commits), at the
 granularity of single statements, with guard *instances* carrying the state -/
 
